@@ -74,7 +74,24 @@ def gen_quoted(rng):
     return {'pre_isa': [], 'pre_cli': [], 'before': [], 'body': body, 'kinds': sorted(kinds)}
 
 
+def gen_many(rng):
+    """size: many distinct symbols (11..24) used on ONE line, some of them several times; the names share prefixes
+    (`K1` / `K10` / `K11`) - every occurrence is replaced as a whole word by its own symbol's text"""
+    n = rng.randint(11, 24)
+    names = [f'K{i}' for i in range(n)]
+    order = list(names)
+    rng.shuffle(order)
+    body = [('define', nm, str(rng.randint(0, 255))) for nm in order]
+    used = [rng.choice(names) for _ in range(rng.randint(0, 20))] + rng.sample(names, rng.randint(11, n))
+    rng.shuffle(used)
+    body.append(('line', '.byte ' + ', '.join(used)))
+    body.append(('line', '.2byte ' + ' + '.join(rng.sample(names, rng.randint(11, n)))))
+    return {'pre_isa': [], 'pre_cli': [], 'before': [], 'body': body, 'kinds': ['many-symbols-on-one-line']}
+
+
 def gen_case(rng, tier):
+    if rng.random() < 0.05:
+        return gen_many(rng)
     if rng.random() < 0.12:
         return gen_quoted(rng)
     if rng.random() < 0.3:
